@@ -96,7 +96,7 @@ func cmdCrashChild(args []string) int {
 		point("op.end", nil)
 	}
 	fmt.Fprintf(out, "END %d\n", count)
-	_ = inst.Rules.Close(ctx)
+	_ = closeRules(ctx, inst.Rules)
 	return 0
 }
 
@@ -597,7 +597,7 @@ func killRun(ctx context.Context, self, hfile string, ops []*Op, n int, fx *Fixt
 		return
 	}
 	post, err := inst.ReadStore(ctx)
-	_ = inst.Rules.Close(ctx)
+	_ = closeRules(ctx, inst.Rules)
 	if err != nil {
 		res.fail = append(res.fail, fmt.Sprintf("cannot read the store after kill point %d: %v", n, err))
 		return
